@@ -28,7 +28,7 @@ def registry():
             obj = getattr(mod, name)
             if isinstance(obj, type):
                 reg[name] = obj
-    for name in ("TableCost", "TableSaving", "TableChangeScore", "TableLocalAnomalyScore", "L1Cost", "TrendPenalisedL2Cost", "MemoisingAbsCost",
+    for name in ("TableCost", "TableSaving", "TableChangeScore", "TableLocalAnomalyScore", "L1Cost", "TrendPenalisedL2Cost", "MemoisingAbsCost", "WeightedCUSUM",
                  "FixedChangeDetector", "FunctionChangeScore", "FunctionLocalAnomalyScore"):
         reg[name] = getattr(U, name)
     return reg
@@ -82,7 +82,7 @@ def scorer_min_size(spec, p):
     if spec is None:
         return 1
     cls = spec["cls"]
-    if cls in ("L2Cost", "CUSUM", "L2Saving", "L1Cost", "TrendPenalisedL2Cost", "MemoisingAbsCost"):
+    if cls in ("L2Cost", "CUSUM", "L2Saving", "L1Cost", "TrendPenalisedL2Cost", "MemoisingAbsCost", "WeightedCUSUM"):
         return 1
     if cls == "GaussianVarCost":
         return 2
@@ -112,8 +112,8 @@ def score_magnitude(spec, X, length, default="CUSUM"):
     cls = default if inner is None else inner["cls"]
     if cls.startswith(("Gaussian", "Table", "Function")):
         return 1.0 + (length if cls.startswith("Gaussian") else 0.0)
-    if cls == "CUSUM":
-        return p * (length ** 0.5) * M
+    if cls in ("CUSUM", "WeightedCUSUM"):
+        return p * (length ** 0.5) * M * (max(abs(float(w)) for w in inner.get("weights", [1.0])) if isinstance(inner, dict) else 1.0)
     if cls == "L1Cost":
         return p * length * M * float(inner.get("scale", 1.0))
     return p * length * M * M  # squared-error costs
